@@ -162,8 +162,13 @@ def programs_conflict(root, program):
     return any(flags.get(e) != 'must' for e in program)
 
 
-def run_program(L, cif, events0, root, program, label, ctx, info):
+def run_program(L, cif, events0, root, program, label, ctx, info, omit=()):
+    if omit:
+        # a handler member left NULL: nothing is observed for that kind of callback, and traversal continues there
+        program = dict((e, a) for e, a in program.items() if events0[e][0] not in omit)
     spec, want_rc, prog = simulate(root, program)
+    if omit:
+        spec = [(eid, flag) for eid, flag in spec if events0[eid][0] not in omit]
     state = {'pos': 0, 'problems': []}
 
     def answer_fn(i, kind, payload):
@@ -185,7 +190,7 @@ def run_program(L, cif, events0, root, program, label, ctx, info):
             state['pos'] = len(spec) + 1
         return TRAVERSE_END
 
-    rc, rec = walker.walk(L, cif, answer_fn=answer_fn)
+    rc, rec = walker.walk(L, cif, answer_fn=answer_fn, omit=omit)
     for k, d in rec.problems:
         raise Mismatch(k, d)
     if state['problems']:
@@ -299,6 +304,31 @@ def run_fixture(ctx, L, n):
             except Mismatch as m:
                 info2 = dict(info, program=describe(program, events0), label=label)
                 ctx.violation(m.key, m.detail, info2)
+        # the same with some handler members left NULL (a NULL member means "continue" and is simply not called):
+        # each kind alone, and random subsets; quick: the all-continue walk, every answer at the last callbacks and
+        # at a stride of the others, and random programs
+        omits = [(k,) for k in walker.KINDS] + [tuple(sorted(rng.sample(walker.KINDS, rng.randint(2, 6)))) for _ in range(3)]
+        nev = len(events0)
+        for omit in omits:
+            progs = [('all-continue', {})]
+            for i in range(nev):
+                if ctx.tier != 'quick' or i >= nev - 6 or (i + len(omit) + n) % 7 == 0:
+                    for a in ANSWERS:
+                        progs.append(('single:%s:%s' % (events0[i][0], answer_name(a)), {i: a}))
+            for k in range(2):
+                spec, rc, prog = simulate(root, None, rng, rng.choice([0.05, 0.15]))
+                progs.append(('random', prog))
+            for label, program in progs:
+                ctx.count('programs')
+                ctx.count('programs_with_null_handler_members')
+                nprog += 1
+                try:
+                    lab = 'null-member:' + label.split(':')[0] + ':' + (label.split(':')[2] if label.count(':') >= 2 else '')
+                    run_program(L, cif, events0, root, program, lab, ctx, info, omit=omit)
+                    ctx.count('programs_agreeing')
+                except Mismatch as m:
+                    info2 = dict(info, program=describe(program, events0), label=label, null_members=list(omit))
+                    ctx.violation(m.key, m.detail, info2)
         ctx.sample(dict(fixture=n, callbacks=len(events0), programs=nprog, first_events=[(k, short(p)) for k, p in events0[:8]]), 3)
     except Mismatch as m:
         ctx.violation(m.key, m.detail, info)
@@ -341,7 +371,8 @@ def run(env):
             samples=res.samples, fixtures=res.count('fixtures'), all_continue_walks=res.count('all_continue_walks'),
             callbacks_in_fixtures=res.count('fixture_callbacks'), largest_fixture_callbacks=res.count('max_callbacks'),
             callbacks_delivered=res.count('callbacks_delivered'), program_kinds=sorted(res.sets.get('program_kinds', ()))[:80],
-            exhaustive_single_answer_programs=True, crashes=res.crashes),
+            exhaustive_single_answer_programs=True,
+            programs_run_with_null_handler_members=res.count('programs_with_null_handler_members'), crashes=res.crashes),
         violations=res.violations, inconclusive=inconclusive,
         assumptions=['element order of repeated walks of an unchanged CIF is stable (the reference order is the '
                      'all-continue walk)', 'end callbacks of skipped elements and of parents of a SKIP_SIBLINGS answer '
